@@ -100,24 +100,43 @@ def copyFunction (s : BState) (srcFlags index typemod : Nat) (name : NameKey) : 
                            isLocal := false, cidx := 0, aliasFor := 1 }],
     idents := s.idents ++ [(name, wh)] }
 
+/-- overload_function, part 1: the new alias entry (FUNCTION_ALIAS (alias) = oldindex) -/
+def addAlias (s : BState) (index oldindex : Nat) : BState :=
+  { s with slots := s.slots ++ [{ flags := nameInherited ||| nameAlias, rt := .inh (s.inherits.length - 1) index,
+                                  isLocal := false, cidx := 0, aliasFor := oldindex }] }
+
+/-- overload_function, part 2: "the latest function wins" — if the old slot is not defined at this level and the new
+    function has code, the old slot takes the new flags and entry; a prototype of this level is marked for removal -/
+def latestWins (s : BState) (old : BSlot) (srcFlags index oldindex typemod : Nat) : BState :=
+  if hasBit old.flags nameUndefined && !(hasBit srcFlags nameNoCode) then
+    modifySlot
+      (if old.isLocal then { s with cfuncs := s.cfuncs.modify old.cidx (fun c => { c with removed := true }) } else s)
+      oldindex (fun sl => { sl with flags := inheritedFlags srcFlags typemod, isLocal := false,
+                                    rt := .inh (s.inherits.length - 1) index })
+  else s
+
+/-- overload_function, part 3: `if (!(newflags & NAME_ALIAS)) FUNCTION_ALIAS (oldindex)++` -/
+def bumpCount (s : BState) (srcFlags oldindex : Nat) : BState :=
+  if !(hasBit srcFlags nameAlias) then modifySlot s oldindex (fun sl => { sl with aliasFor := sl.aliasFor + 1 }) else s
+
 /-- overload_function (prog, index, defprog, defindex, oldindex, typemod) -/
 def overloadFunction (s : BState) (srcFlags index oldindex typemod : Nat) : BState :=
   match s.slots[oldindex]? with
   | none => s
-  | some old =>
-    let oldflags := old.flags
-    let newflags := srcFlags
-    -- the alias entry
-    let s := { s with slots := s.slots ++ [{ flags := nameInherited ||| nameAlias, rt := .inh (s.inherits.length - 1) index,
-                                             isLocal := false, cidx := 0, aliasFor := oldindex }] }
-    -- the latest function wins
-    let s :=
-      if hasBit oldflags nameUndefined && !(hasBit newflags nameNoCode) then
-        let s := if old.isLocal then { s with cfuncs := s.cfuncs.modify old.cidx (fun c => { c with removed := true }) } else s
-        modifySlot s oldindex (fun sl => { sl with flags := inheritedFlags newflags typemod, isLocal := false,
-                                                   rt := .inh (s.inherits.length - 1) index })
-      else s
-    if !(hasBit newflags nameAlias) then modifySlot s oldindex (fun sl => { sl with aliasFor := sl.aliasFor + 1 }) else s
+  | some old => bumpCount (latestWins (addAlias s index oldindex) old srcFlags index oldindex typemod) srcFlags oldindex
+
+/-- one iteration of copy_functions: runtime slot i of the inherited program Q (= world program q) -/
+def copyStep (w : World) (q : Nat) (Q : Program) (mods : Nat) (s : BState) (i : Nat) : BState :=
+  match chase w w.fuel q i 0 0 with
+  | none => s
+  | some fr =>
+    match (w.progs[fr.prog]?.bind (·.ft[fr.fidx]?)) with
+    | none => s
+    | some fe =>
+      let srcFlags := Q.flags.getD i 0
+      match s.ident fe.name with
+      | some num => overloadFunction s srcFlags i num mods
+      | none => copyFunction s srcFlags i mods fe.name
 
 /-- the inheritance rule of grammar.y + copy_variables (count only) + copy_functions -/
 def doInherit (w : World) (s : BState) (mods q : Nat) : BState :=
@@ -126,17 +145,7 @@ def doInherit (w : World) (s : BState) (mods q : Nat) : BState :=
   | some Q =>
     let s := { s with inherits := s.inherits ++ [{ prog := q, fio := s.slots.length, vio := s.nvars, typeMod := mods }],
                       nvars := s.nvars + Q.nvt }
-    (List.range Q.flags.length).foldl (fun s i =>
-      match chase w w.fuel q i 0 0 with
-      | none => s
-      | some fr =>
-        match (w.progs[fr.prog]?.bind (·.ft[fr.fidx]?)) with
-        | none => s
-        | some fe =>
-          let srcFlags := Q.flags.getD i 0
-          match s.ident fe.name with
-          | some num => overloadFunction s srcFlags i num mods
-          | none => copyFunction s srcFlags i mods fe.name) s
+    (List.range Q.flags.length).foldl (copyStep w q Q mods) s
 
 /-- define_new_function (name, num_arg = 0, num_local, flags, type): `flags` = NAME_UNDEFINED|NAME_PROTOTYPE for the
     header / a prototype, 0 for the definition proper; all generated functions are typed, so exact_types is on -/
@@ -234,7 +243,7 @@ def sortedOrder (cf : List CFunc) : List Nat :=
   ((List.range cf.length).filter (fun i => !((cf[i]?.map (·.removed)).getD true))).foldl (fun acc i => insertByKey cf i acc) []
 
 /-- the finished program -/
-def finish (name : String) (id : Nat) (s : BState) : Program :=
+def finish (name : String) (id : Nat) (s : BState) (heartBeatKey : Option NameKey := none) : Program :=
   let slots := epilogSlots s.slots
   let order := sortedOrder s.cfuncs
   let inverse (old : Nat) : Nat := (order.findIdx? (· == old)).getD order.length
@@ -246,11 +255,14 @@ def finish (name : String) (id : Nat) (s : BState) : Program :=
       else match sl.rt with
         | .defn ci na => .defn (inverse ci) na
         | e => e),
-    inherit := s.inherits }
+    inherit := s.inherits,
+    -- epilog(): `ihe = lookup_ident ("heart_beat"); prog->heart_beat = ihe ? ihe->dn.function_num : -1`
+    heartBeat := heartBeatKey.bind s.ident }
 
 /-- compile one source file against the world of already compiled programs -/
-def buildProgram (w : World) (name : String) (id : Nat) (items : List Item) : Program :=
-  finish name id (items.foldl (doItem w) {})
+def buildProgram (w : World) (name : String) (id : Nat) (items : List Item) (heartBeatKey : Option NameKey := none) :
+    Program :=
+  finish name id (items.foldl (doItem w) {}) heartBeatKey
 
 /-! ### rendering in the format of the harness' `tbl` line -/
 
@@ -276,6 +288,7 @@ def renderTbl (w : World) (P : Program) : String :=
   let inh := if P.inherit.isEmpty then "-" else
     ",".intercalate (P.inherit.map fun ih =>
       s!"{((w.progs[ih.prog]?).map (·.name)).getD "?"}:{ih.fio}:{ih.vio}:{ih.typeMod}")
-  s!"tbl {P.name} id={P.id} nvt={P.nvt} nvd={P.nvd} ft={ft} fl={fl} inh={inh}"
+  let hb := match P.heartBeat with | some i => toString i | none => "-1"
+  s!"tbl {P.name} id={P.id} nvt={P.nvt} nvd={P.nvd} ft={ft} fl={fl} hb={hb} inh={inh}"
 
 end NV.C07
